@@ -33,7 +33,7 @@ ASSUMPTIONS = [
     "'loads differ by at most one' is evaluated over the worker lists the function returns for one host",
 ]
 REQUIRED_CLAUSES = [
-    "rectangular", "join-aligned", "exact-cover", "steps-progress", "driver-progress", "driver-clients-exactly-once",
+    "rectangular", "join-aligned", "exact-cover", "steps-progress", "driver-progress", "driver-clients-exactly-once", "worker-view-exactly-once", "allocation-total-clients",
     "partition", "contiguous", "one-worker-per-core", "balanced",
 ]
 REQUIRED_FEATURES = {
@@ -251,8 +251,9 @@ def _driver_cfg():
     return _DRIVER_CFG
 
 
-def check_driver_walk(ctx, schedule, hosts):
-    """start_benchmark() + one joinpoint_reached() per worker and join point on a real Driver; what it reports per step."""
+def check_driver_walk(ctx, schedule, hosts, expected_totals=None):
+    """start_benchmark() + one joinpoint_reached() per worker and join point on a real Driver; what it reports per step.
+    expected_totals: per element, the number of clients the model says the element has (explicit cap, else the clients of the tasks that are left)."""
     problems = []
     info = {}
     actor = _Actor()
@@ -299,6 +300,61 @@ def check_driver_walk(ctx, schedule, hosts):
         problems.append(("driver-clients-exactly-once", f"{nclients} clients: not started on any worker {lost}, started more than once {dup}, started with another client's row {wrong_row[:8]}", None))
     workers = [(worker_id, [a["client_id"] for a in ca.allocations], ca) for worker_id, host, ca in actor.started]
     info["workers"] = len(workers)
+    # what the workers will actually drive: the ClientAllocations object of every worker is read the way Worker.drive() reads it
+    # (tasks(index) column by column); over all workers that must be every (task, client index) of every element exactly once, as
+    # client of the row it sits in, and the join points must come out as join points
+    ctx.clause("worker-view-exactly-once")
+    width = len(d.allocations[0]) if d.allocations else 0
+    driven = collections.Counter()
+    view_problem = None
+    for worker_id, cids, ca in workers:
+        for idx in range(width):
+            try:
+                col = ca.tasks(idx)
+                is_jp = ca.is_joinpoint(idx)
+            except Exception as e:
+                view_problem = f"worker {worker_id}: ClientAllocations.tasks({idx}) raised {type(e).__name__}: {e}"
+                break
+            want_jp = isinstance(d.allocations[cids[0]][idx], driver.JoinPoint)
+            if not col:
+                continue  # nothing but padding for this worker in this column: Worker.drive() skips it without asking
+            if is_jp != want_jp:
+                view_problem = f"worker {worker_id}: column {idx} is {'a' if want_jp else 'no'} join point in the matrix but is_joinpoint() says {is_jp}"
+                break
+            for c in col:
+                if isinstance(c.task, driver.TaskAllocation):
+                    if c.task is not d.allocations[c.client_id][idx]:
+                        view_problem = f"worker {worker_id}: column {idx} hands client {c.client_id} an allocation that is not at ({c.client_id}, {idx}) of the matrix"
+                    driven[(id(c.task.task), c.task.client_index_in_task)] += 1
+        if view_problem:
+            break
+    if not view_problem:
+        ref = collections.Counter()
+        names = {}
+        for element in schedule:
+            for t in leaves(element):
+                names[id(t)] = t.name
+                for i in range(t.clients):
+                    ref[(id(t), i)] += 1
+        if driven != ref:
+            missing = sorted((names.get(t, "?"), i) for (t, i) in (ref - driven))[:6]
+            extra = sorted((names.get(t, "?"), i) for (t, i) in (driven - ref))[:6]
+            view_problem = f"{len(workers)} workers would drive {sum(driven.values())} of {sum(ref.values())} (task, client index) pairs: never driven {missing}, driven more than once / unknown {extra}"
+    if view_problem:
+        problems.append(("worker-view-exactly-once", view_problem, None))
+    # what every executor is told about the size of its element (ramp-up and pacing divide by it)
+    for k, element in enumerate(schedule):
+        if expected_totals is None:
+            break
+        want_total = expected_totals[k]
+        if want_total is None:
+            continue
+        ctx.clause("allocation-total-clients")
+        bad = [(c.task.name, c.client_index_in_task, c.total_clients) for row in d.allocations for c in row
+               if isinstance(c, driver.TaskAllocation) and any(c.task is t for t in leaves(element)) and c.total_clients != want_total]
+        if bad:
+            problems.append(("allocation-total-clients", f"element {k} has {want_total} clients but its allocations carry total_clients {sorted({b[2] for b in bad})} (e.g. task {bad[0][0]} index {bad[0][1]})", None))
+            break
     # walk
     reported = {}
     j = 0
@@ -446,7 +502,22 @@ def eval_schedule_case(ctx, case):
     for ci, ch in enumerate(trk.challenges):
         schedule = ch.schedule
         p1, info = check_allocator(ctx, schedule)
-        p2, winfo = check_driver_walk(ctx, schedule, case["hosts"])
+        # the size of every element according to the model: the explicit cap, else the clients of the tasks the filter left
+        by_name = {}
+        for e in case["challenges"][ci]["schedule"]:
+            for t in (e["p"]["tasks"] if "p" in e else [e["t"]]):
+                by_name[t["name"]] = e
+        totals = []
+        for e in schedule:
+            ls = leaves(e)
+            spec = by_name.get(ls[0].name) if ls else None
+            if spec is None:
+                totals.append(None)
+            elif "p" in spec:
+                totals.append(spec["p"]["cap"] if spec["p"]["cap"] is not None else sum(t.clients for t in ls))
+            else:
+                totals.append(spec["t"]["clients"])
+        p2, winfo = check_driver_walk(ctx, schedule, case["hosts"], totals)
         empty = sum(1 for e in schedule if is_parallel(e) and len(leaves(e)) == 0)
         if empty and (p1 or p2):
             # is the failure explained by the empty parallel elements alone? (for the mechanism classifier)
